@@ -76,21 +76,21 @@ Qed.
 
 (* ------------------------------------------------------------------ jwt finalizer *)
 
-Definition jf_areq (H : string -> string) (x : signer * jf_cfg * jreq) : areq :=
+Definition jf_areq (fx5 : bool) (H : string -> string) (x : signer * jf_cfg * jreq) : areq :=
   let '(s, c, q) := x in
-  {| a_key := Some (jf_key H s c q); a_fresh := (jf_fresh s c q, 0); a_store := jf_stores c; a_recheck := OAllow |}.
+  {| a_key := Some (jf_key fx5 H s c q); a_fresh := (jf_fresh s c q, 0); a_store := jf_stores c; a_recheck := OAllow |}.
 
-Lemma jf_exec_aexec H s cch c q : jf_exec H s cch c q = aexec cch (jf_areq H (s, c, q)).
+Lemma jf_exec_aexec fx5 H s cch c q : jf_exec fx5 H s cch c q = aexec cch (jf_areq fx5 H (s, c, q)).
 Proof. unfold jf_exec, aexec, jf_areq. simpl. destruct (lookup _ cch); reflexivity. Qed.
 
-Lemma jrun_arun H kc : forall h s cch,
-  map fst (jrun H kc s cch h) = arun cch (map (jf_areq H) (timeline kc s h)) /\
-  map snd (jrun H kc s cch h) = map (fun a => fst (a_fresh a)) (map (jf_areq H) (timeline kc s h)).
+Lemma jrun_arun fx5 H kc : forall h s cch,
+  map fst (jrun fx5 H kc s cch h) = arun cch (map (jf_areq fx5 H) (timeline kc s h)) /\
+  map snd (jrun fx5 H kc s cch h) = map (fun a => fst (a_fresh a)) (map (jf_areq fx5 H) (timeline kc s h)).
 Proof.
-  induction h as [|[c q|kid] h IH]; intros s cch.
+  induction h as [|[c q|kid th] h IH]; intros s cch.
   - simpl; auto.
   - cbn [jrun timeline map arun]. rewrite jf_exec_aexec.
-    destruct (aexec cch (jf_areq H (s, c, q))) as [x c'] eqn:X.
+    destruct (aexec cch (jf_areq fx5 H (s, c, q))) as [x c'] eqn:X.
     destruct (IH s c') as [E1 E2]. cbn [map fst snd]. rewrite E1, E2. split; reflexivity.
   - cbn [jrun timeline]. apply IH.
 Qed.
@@ -103,7 +103,7 @@ Lemma timeline_kids kc : forall h seen s,
   (forall x y, In x (timeline kc s h) -> In y (timeline kc s h) ->
      sg_kid (fst (fst x)) = sg_kid (fst (fst y)) -> fst (fst x) = fst (fst y)).
 Proof.
-  induction h as [|[c q|kid] h IH]; intros seen s G Is; simpl in *.
+  induction h as [|[c q|kid th] h IH]; intros seen s G Is; simpl in *.
   - split; intros; contradiction.
   - destruct (IH seen s G Is) as [A B]. split.
     + intros x [<-|I]; [left; reflexivity | now apply A].
@@ -111,18 +111,18 @@ Proof.
       * destruct (A y Iy) as [->|N]; auto. exfalso. apply N. now rewrite <- E.
       * destruct (A x Ix) as [->|N]; auto. exfalso. apply N. now rewrite E.
   - apply orb_false_iff in G as [G1 G2].
-    destruct (Nat.eqb_spec (sg_gen (reload kc s kid)) (sg_gen s)) as [Eg|Ng].
+    destruct (Nat.eqb_spec (sg_gen (reload kc s kid th)) (sg_gen s)) as [Eg|Ng].
     + (* the reload failed: the signer is unchanged *)
-      assert (Es : reload kc s kid = s).
+      assert (Es : reload kc s kid th = s).
       { unfold reload in *. destruct kc as [k|]; [destruct (String.eqb k kid)|]; simpl in Eg; auto; lia. }
       rewrite Es in *. destruct (IH (sg_kid s :: seen) s G2 (or_introl eq_refl)) as [A B]. split; auto.
       intros x I. destruct (A x I) as [E|N]; auto. right. intro J. apply N. now right.
     + simpl in G1. unfold str_in in G1.
-      assert (Nk : ~ In (sg_kid (reload kc s kid)) seen).
-      { intro J. assert (T : existsb (String.eqb (sg_kid (reload kc s kid))) seen = true).
-        { apply existsb_exists. exists (sg_kid (reload kc s kid)). split; auto. apply String.eqb_refl. }
+      assert (Nk : ~ In (sg_kid (reload kc s kid th)) seen).
+      { intro J. assert (T : existsb (String.eqb (sg_kid (reload kc s kid th))) seen = true).
+        { apply existsb_exists. exists (sg_kid (reload kc s kid th)). split; auto. apply String.eqb_refl. }
         congruence. }
-      destruct (IH (sg_kid (reload kc s kid) :: seen) (reload kc s kid) G2 (or_introl eq_refl)) as [A B].
+      destruct (IH (sg_kid (reload kc s kid th) :: seen) (reload kc s kid th) G2 (or_introl eq_refl)) as [A B].
       split; auto. intros x I. right. destruct (A x I) as [->|N]; auto. intro J. apply N. now right.
 Qed.
 
@@ -134,13 +134,17 @@ Definition jf_faithful (x y : signer * jf_cfg * jreq) : Prop :=
   (j_sub_json q1 = j_sub_json q2 -> j_sub_id q1 = j_sub_id q2) /\
   (j_outputs_json q1 = j_outputs_json q2 -> j_outputs q1 = j_outputs q2).
 
+(** distinct keys have distinct thumbprints *)
+Definition thumbs_faithful (tl : list (signer * jf_cfg * jreq)) : Prop :=
+  forall x y, In x tl -> In y tl -> sg_thumb (fst (fst x)) = sg_thumb (fst (fst y)) -> fst (fst x) = fst (fst y).
+
 Local Opaque le64.
 
-Lemma jf_key_inj H s1 c1 q1 s2 c2 q2 :
-  injective H -> jf_key H s1 c1 q1 = jf_key H s2 c2 q2 ->
-  p_jf_F4 H (s1, c1, q1) (s2, c2, q2) = false -> jf_faithful (s1, c1, q1) (s2, c2, q2) ->
-  sg_kid s1 = sg_kid s2 /\ jf_iss c1 = jf_iss c2 /\ jf_claims c1 = jf_claims c2 /\
-  j_sub_id q1 = j_sub_id q2 /\ j_outputs q1 = j_outputs q2.
+Lemma jf_key_inj fx5 H s1 c1 q1 s2 c2 q2 :
+  injective H -> jf_key fx5 H s1 c1 q1 = jf_key fx5 H s2 c2 q2 ->
+  p_jf_F4 fx5 H (s1, c1, q1) (s2, c2, q2) = false -> jf_faithful (s1, c1, q1) (s2, c2, q2) ->
+  sg_kid s1 = sg_kid s2 /\ (fx5 = true -> sg_thumb s1 = sg_thumb s2) /\ jf_iss c1 = jf_iss c2 /\
+  jf_claims c1 = jf_claims c2 /\ j_sub_id q1 = j_sub_id q2 /\ j_outputs q1 = j_outputs q2.
 Proof.
   intros Hinj E G (Fc & Fs & Fo). unfold jf_key in E. apply hex_inj in E. apply Hinj in E.
   unfold p_jf_F4 in G. apply orb_false_iff in G as [G1 G2].
@@ -148,7 +152,9 @@ Proof.
   remember (le64 (jf_ttl c1)) as t1. remember (le64 (jf_ttl c2)) as t2.
   simpl in E. injection E as Esg E.
   apply Hinj in Esg. apply (no_boundary_shift _ _ G2) in Esg. unfold signer_fields in Esg.
-  injection Esg as Ekid Eiss.
+  assert (Ek : sg_kid s1 = sg_kid s2 /\ jf_iss c1 = jf_iss c2 /\ (fx5 = true -> sg_thumb s1 = sg_thumb s2)).
+  { destruct fx5; simpl in Esg; injection Esg; intros; subst; splits; auto; discriminate. }
+  destruct Ek as (Ekid & Eiss & Eth).
   assert (Ecl : option_map tpl_text (jf_claims c1) = option_map tpl_text (jf_claims c2) /\
                 j_sub_json q1 = j_sub_json q2 /\ j_outputs_json q1 = j_outputs_json q2).
   { destruct (jf_claims c1), (jf_claims c2); simpl in E; injection E; intros; subst;
@@ -157,26 +163,31 @@ Proof.
 Qed.
 
 (** jwt finalizer: for a collision-free SHA-256 and every history of executions
-    and key-store reloads in which no reload puts a new key under a key id used
-    before (guard of C11-F5) and no two pre-images can be shifted against each
-    other, every token served with the cache is a token a fresh evaluation
-    would issue at that moment (same subject, claims, issuer, key id and key). *)
-Theorem jf_cache_transparent : forall H kc s h,
-  injective H -> g_F5 kc s h = false ->
-  (forall x y, In x (timeline kc s h) -> In y (timeline kc s h) -> p_jf_F4 H x y = false /\ jf_faithful x y) ->
-  map (fun m => sr_out (fst m)) (jrun H kc s [] h) = map snd (jrun H kc s [] h).
+    and key-store reloads, every token served with the cache is a token a fresh
+    evaluation would issue at that moment (same subject, claims, issuer, key id
+    and key) — provided the signer's hash covers the key ([fx5], the repair), or
+    no reload puts a new key under a key id used before (guard of C11-F5) — and
+    no two pre-images can be shifted against each other. *)
+Theorem jf_cache_transparent : forall fx5 H kc s h,
+  injective H ->
+  (fx5 = true /\ thumbs_faithful (timeline kc s h)) \/ g_F5 kc s h = false ->
+  (forall x y, In x (timeline kc s h) -> In y (timeline kc s h) -> p_jf_F4 fx5 H x y = false /\ jf_faithful x y) ->
+  map (fun m => sr_out (fst m)) (jrun fx5 H kc s [] h) = map snd (jrun fx5 H kc s [] h).
 Proof.
-  intros H kc s h Hinj G5 Pw.
-  destruct (jrun_arun H kc h s []) as [E1 E2].
+  intros fx5 H kc s h Hinj G5 Pw.
+  destruct (jrun_arun fx5 H kc h s []) as [E1 E2].
   rewrite <- map_map, E1, E2. apply cache_transparent_abstract.
-  destruct (timeline_kids kc h [sg_kid s] s G5 (or_introl eq_refl)) as [_ Kids].
   intros a b k r Ia Ib Ka Kb Fa.
   apply in_map_iff in Ia as ([[s1 c1] q1] & <- & Ia). apply in_map_iff in Ib as ([[s2 c2] q2] & <- & Ib).
   simpl in *. injection Ka as Ka. injection Kb as Kb.
   destruct (Pw _ _ Ia Ib) as [P F].
-  destruct (jf_key_inj H s1 c1 q1 s2 c2 q2 Hinj) as (Ek & Ei & Ec & Es & Eo); auto; [congruence|].
-  pose proof (Kids _ _ Ia Ib Ek) as Esg. simpl in Esg. subst s2.
-  rewrite <- Fa. unfold jf_fresh, jf_claims_text. now rewrite Ei, Ec, Es, Eo.
+  destruct (jf_key_inj fx5 H s1 c1 q1 s2 c2 q2 Hinj) as (Ek & Eth & Ei & Ec & Es & Eo); auto; [congruence|].
+  assert (Esg : s1 = s2).
+  { destruct G5 as [[F5 Th]|G5].
+    - apply (Th _ _ Ia Ib). simpl. now apply Eth.
+    - destruct (timeline_kids kc h [sg_kid s] s G5 (or_introl eq_refl)) as [_ Kids].
+      apply (Kids _ _ Ia Ib Ek). }
+  subst s2. rewrite <- Fa. unfold jf_fresh, jf_claims_text. now rewrite Ei, Ec, Es, Eo.
 Qed.
 
 Definition w_jf : jf_cfg :=
@@ -185,14 +196,75 @@ Definition w_jf : jf_cfg :=
 Definition w_jreq : jreq :=
   {| j_sub_id := "alice"; j_sub_json := "{""ID"":""alice"",""Attributes"":{}}"; j_outputs := []; j_outputs_json := "{}" |}.
 
-(** C11-F5: after a reload that keeps the key id the cached token (signed with
-    the old key) is served, a fresh evaluation signs with the new key *)
+(** C11-F5 (the code before d9caf75): after a reload that keeps the key id the cached token
+    (signed with the old key) is served, a fresh evaluation signs with the new key *)
 Theorem F5_refuted :
   exists kc s h, g_F5 kc s h = true /\
-    forall H, map (fun m => sr_out (fst m)) (jrun H kc s [] h) <> map snd (jrun H kc s [] h).
+    forall H, map (fun m => sr_out (fst m)) (jrun false H kc s [] h) <> map snd (jrun false H kc s [] h).
 Proof.
-  exists (Some "k1"), {| sg_kid := "k1"; sg_gen := 0 |}, [JExec w_jf w_jreq; JReload "k1"; JExec w_jf w_jreq].
+  exists (Some "k1"), {| sg_kid := "k1"; sg_gen := 0; sg_thumb := "t0" |},
+         [JExec w_jf w_jreq; JReload "k1" "t1"; JExec w_jf w_jreq].
   split; [reflexivity|]. intros H E.
   cbn [jrun] in E. unfold jf_exec in E. simpl lookup in E. cbv iota in E.
   unfold jf_stores in E. simpl in E. rewrite String.eqb_refl in E. simpl in E. discriminate.
+Qed.
+
+(* ------------------------------------------------------------------ RFC 7234 cache of an endpoint *)
+
+Definition hc_areq (fx8 : bool) (H : string -> string) (c : hc_cfg) (x : alist) : areq :=
+  {| a_key := Some (hc_key H c); a_fresh := (OAllow (hc_result c x), 1); a_store := hc_stores fx8 c;
+     a_recheck := OAllow |}.
+
+Lemma hc_exec_aexec fx8 H c cch x : hc_exec fx8 H c cch x = aexec cch (hc_areq fx8 H c x).
+Proof. unfold hc_exec, aexec, hc_areq. simpl. destruct (lookup _ cch); reflexivity. Qed.
+
+Lemma hc_run_arun fx8 H c : forall h cch, hc_run fx8 H c cch h = arun cch (map (hc_areq fx8 H c) h).
+Proof.
+  induction h as [|x h IH]; intro cch; simpl; [reflexivity|].
+  rewrite hc_exec_aexec. destruct (aexec cch (hc_areq fx8 H c x)) as [y c']. now rewrite IH.
+Qed.
+
+(** nothing is ever stored: every look-up is a miss *)
+Lemma arun_nostore : forall l,
+  (forall a, In a l -> a_store a = false) ->
+  map sr_out (arun [] l) = map (fun a => fst (a_fresh a)) l.
+Proof.
+  induction l as [|a l IH]; intro N; simpl; [reflexivity|].
+  unfold aexec. destruct (a_key a) as [k|]; simpl.
+  - destruct (a_fresh a) as [o n] eqn:F. rewrite (N a (or_introl eq_refl)).
+    replace (match o with OAllow _ => [] | _ => [] end) with (@nil (string * result)) by (destruct o; reflexivity).
+    simpl. f_equal. apply IH. intros b I. apply N. now right.
+  - destruct (a_fresh a) as [o n]. simpl. f_equal. apply IH. intros b I. apply N. now right.
+Qed.
+
+(** RFC 7234 cache: outside the guard of C11-F8 (requests that differ in a header the server
+    lists in Vary) every response served from the cache is the one a fresh request would get *)
+Theorem hc_cache_transparent : forall fx8 H c h,
+  g_F8 fx8 c h = false ->
+  map sr_out (hc_run fx8 H c [] h) = map (fun x => OAllow (hc_result c x)) h.
+Proof.
+  intros fx8 H c h G. rewrite hc_run_arun. unfold g_F8 in G.
+  destruct (hc_stores fx8 c) eqn:S; simpl in G.
+  - rewrite cache_transparent_abstract; [now rewrite map_map|].
+    intros a b k r Ia Ib _ _ Fa.
+    apply in_map_iff in Ia as (xa & <- & Ia). apply in_map_iff in Ib as (xb & <- & Ib).
+    simpl in *. injection Fa as <-.
+    destruct (exists_pair_false _ h xa xb G Ia Ib) as [->|[P _]]; [reflexivity|].
+    apply negb_false_iff in P. apply String.eqb_eq in P. unfold hc_result. now rewrite P.
+  - rewrite arun_nostore; [now rewrite map_map|].
+    intros a I. apply in_map_iff in I as (x & <- & _). exact S.
+Qed.
+
+Definition w_hc : hc_cfg :=
+  {| hc_url := "http://ctx/h/vary-user"; hc_method := "GET"; hc_vary := ["X-User"]; hc_cacheable := true |}.
+
+(** C11-F8: the response fetched for X-User: alice — which the server declares to
+    vary with X-User — is served to the request with X-User: bobby *)
+Theorem F8_refuted :
+  exists c a b, g_F8 false c [a; b] = true /\
+    forall H, map sr_out (hc_run false H c [] [a; b]) <> map (fun x => OAllow (hc_result c x)) [a; b].
+Proof.
+  exists w_hc, [("X-User", "alice")], [("X-User", "bobby")]. split; [reflexivity|].
+  intros H E. cbn [hc_run] in E. unfold hc_exec in E. simpl in E. rewrite String.eqb_refl in E. simpl in E.
+  discriminate.
 Qed.
